@@ -1172,9 +1172,89 @@ func spinScenario(name string) Scenario {
 	}}
 }
 
+// hswinScenario: a heartbeat packet (either direction) or a message that reaches a session while its handshaking goroutine is still
+// inside the constructor - held at a server-level listener of the open packet's flush (S.flush: batch taken, nothing written yet;
+// S.drain: open packet handed to the transport, the client can read it and answer) or right after the constructor
+// (handshake.constructed). The session is "open" there, its reader goroutine (stream transports) is running, its heartbeat
+// timers do not exist yet.
+func hswinScenario(name string, proto int, kind, gate, ptype string) Scenario {
+	return Scenario{Name: name, Run: func(t *testing.T, rec *Rec, g *Gates) {
+		cfg := EngCfg{PI: 25 * time.Second, PT: 20 * time.Second, EIO3: true, WT: true}
+		w := newEngWorld(t, rec, g, cfg)
+		sc := &Script{w: w, r: rand.New(rand.NewSource(1)), cfg: cfg, W: map[string]int{}}
+		sc.newSession() // the canary: polling, revision 4
+		sc.settle()
+		can := sc.ss[0]
+		sc.canaryRoundTrip(can)
+		g.Park(gate, true)
+		s := &Sess{Proto: proto}
+		c := &cliSess{S: s, Kind: kind, autoPong: true}
+		var hs *Req
+		switch kind {
+		case "websocket":
+			c.ws = w.DialWS(s, "", nil, func(wc *WSClient, p Pkt) { sc.processPkts(c, []Pkt{p}, wc) })
+		case "webtransport":
+			c.Kind = "websocket"
+			c.ws = w.DialWT(s, func(wc *WSClient, p Pkt) { sc.processPkts(c, []Pkt{p}, wc) })
+		default:
+			hs = w.StartReq("handshake", s, ReqOpt{})
+		}
+		sc.settle()
+		if hs != nil {
+			for _, p := range hs.Pkts {
+				if p.Type == "open" {
+					s.Sid = openSid(p.Data)
+				}
+			}
+		}
+		sc.ss = append(sc.ss, c)
+		if s.Sid != "" && g.Parked(gate) > 0 {
+			w.Cause(s.Sid, "error")
+			rec.Log("hostile", "sid", s.Sid, "class", "hs-window-"+ptype, "proto", proto, "kind", kind)
+			cpu0 := cpuNow()
+			pk := Pkt{Type: ptype}
+			if ptype == "message" {
+				pk = w.ClientMsg(5, false, 1)
+			}
+			if c.ws != nil {
+				c.ws.SendPkt(pk)
+			} else {
+				w.Post(s, []Pkt{pk}, ReqOpt{})
+			}
+			sc.settle()
+			rec.Log("hostile.done", "sid", s.Sid, "class", "hs-window-"+ptype, "bytes", 2, "cpu_ms", int64((cpuNow()-cpu0)/time.Millisecond))
+		}
+		g.Park(gate, false)
+		g.ReleaseAll()
+		sc.settle()
+		w.Snapshot()
+		sc.canaryRoundTrip(can)
+		sc.Drain()
+		w.Finish()
+	}}
+}
+
+func hswinFamily() []Scenario {
+	var out []Scenario
+	for _, proto := range []int{4, 3} {
+		for _, kind := range []string{"websocket", "polling", "webtransport"} {
+			if kind == "webtransport" && proto == 3 {
+				continue
+			}
+			for _, gate := range []string{"S.drain", "S.flush", "handshake.constructed"} {
+				for _, pt := range []string{"pong", "ping", "message"} {
+					out = append(out, hswinScenario(fmt.Sprintf("hswin_%d_%s_%s_%s", proto, kind, gate, pt), proto, kind, gate, pt))
+				}
+			}
+		}
+	}
+	return out
+}
+
 func hostileFamily(seed int64, n int) []Scenario {
 	var out []Scenario
 	out = append(out, spinScenario(fmt.Sprintf("host%d_spin", seed)))
+	out = append(out, hswinFamily()...)
 	for i := 0; i < n; i++ {
 		out = append(out, hostileScenario(fmt.Sprintf("host%d_%d", seed, i), seed*1000033+int64(i)))
 	}
@@ -1471,8 +1551,62 @@ func graceScenario(name string, kind string, buffered int, pendingPoll bool, fol
 	}}
 }
 
+// shutdownScenario: an engine attached to an HTTP server (the application's own handler next to it); sessions in every state a
+// shutdown can meet - a pending poll, a stream transport, an idle polling session, a session closing gracefully with data the
+// client has not fetched - and then the shutdown through the engine (Server.Close) or through the HTTP server it is attached
+// to (HttpServer.Close, whose "close" event the engine listens for from Attach on - whether or not the HTTP server was ever
+// told to listen by itself: here it is served as a plain http.Handler, as under httptest or an http.Server of the application).
+func shutdownScenario(name, via string, closing bool) Scenario {
+	return Scenario{Name: name, Run: func(t *testing.T, rec *Rec, g *Gates) {
+		cfg := EngCfg{PI: 25 * time.Second, PT: 20 * time.Second}
+		w := NewWorld(t, rec, g, WorldOpts{Opts: cfg.options(), Attach: true})
+		w.LogCfg(cfg)
+		sc := &Script{w: w, r: rand.New(rand.NewSource(1)), cfg: cfg, W: map[string]int{}}
+		s1, _ := w.Handshake(4, false, false, ReqOpt{})
+		c1 := &cliSess{S: s1, Kind: "polling"}
+		sw := &Sess{Proto: 4}
+		c2 := &cliSess{S: sw, Kind: "websocket"}
+		c2.ws = w.DialWS(sw, "", nil, func(wc *WSClient, p Pkt) { sc.processPkts(c2, []Pkt{p}, wc) })
+		s3, _ := w.Handshake(4, false, false, ReqOpt{})
+		c3 := &cliSess{S: s3, Kind: "polling"}
+		sc.ss = append(sc.ss, c1, c2, c3)
+		sc.settle()
+		if s1.Sid == "" || sw.Sid == "" || s3.Sid == "" {
+			w.Finish()
+			return
+		}
+		sc.doPoll(c1) // a poll pending at shutdown
+		sc.settle()
+		if closing {
+			w.Send(s3.Sid, SendOpt{Size: 5})
+			sc.settle()
+			w.Close(s3.Sid, false)
+			sc.settle()
+		}
+		if via == "http" {
+			w.rec.Log("app.srvclose.call", "via", "http")
+			w.Http.Close(nil)
+			w.rec.Log("app.srvclose.ret", "via", "http")
+		} else {
+			w.ServerClose()
+		}
+		sc.settle()
+		for _, s := range []*Sess{s1, sw, s3} {
+			w.Expect(s.Sid, "closed")
+		}
+		w.Snapshot()
+		sc.Drain()
+		w.Finish()
+	}}
+}
+
 func graceFamily() []Scenario {
 	var out []Scenario
+	for _, via := range []string{"server", "http"} {
+		for _, closing := range []bool{false, true} {
+			out = append(out, shutdownScenario(fmt.Sprintf("shutdown_%s_closing%v", via, closing), via, closing))
+		}
+	}
 	for _, kind := range []string{"polling", "websocket"} {
 		for buffered := 0; buffered <= 2; buffered++ {
 			for _, pp := range []bool{false, true} {
